@@ -22,7 +22,9 @@ from statham.schema.validation import (
 
 
 RESERVED_PROPERTIES = (
-    dir(object) + list(keyword.kwlist) + ["_dict", "__dict__", "__weakref__"]
+    dir(object)
+    + list(keyword.kwlist)
+    + ["_dict", "__dict__", "__weakref__", "__debug__"]
 )
 
 
